@@ -37,7 +37,7 @@ Qed.
 Lemma serialize_pong tok : blen tok <= 8 ->
   serialize {| code := PONG; token := tok; opts := []; payload := [] |} = Ok ([blen tok; PONG] ++ tok).
 Proof.
-  intros H. unfold serialize. cbn [opts payload token code options_encode options_encode_from bind app blen length].
+  intros H. unfold serialize. unfold option_list. cbn [opts payload token code fold_left options_encode options_encode_from bind app blen length].
   change (encode_length (blen (@nil Z))) with (Ok (0, @nil Z)). cbn [bind].
   replace (blen tok >? 8) with false by lia. change (Z.shiftl 0 4) with 0. rewrite Z.lor_0_l.
   cbn [app]. rewrite app_nil_r. reflexivity.
@@ -155,6 +155,7 @@ Lemma serialize_abort_bad n : 0 <= n < 2 ^ 64 ->
 Proof.
   intros Hn. pose proof (to_minimum_bytes_short n Hn) as Hv. pose proof (blen_nonneg (to_minimum_bytes n)) as Hv0.
   unfold serialize, abort_msg. cbn [opts payload token code].
+  unfold option_list. cbn [fold_left insert_opt].
   unfold options_encode. cbn [options_encode_from].
   change (write_extended_field_value (2 - 0)) with (Ok (2, @nil Z)). cbn [bind].
   unfold write_extended_field_value at 1.
